@@ -109,9 +109,23 @@ pub fn replay(case: &Value) -> Result<Verdict, String> {
     Ok(judge(&case_from_json(case)?))
 }
 
+/// leaves drawn from a tiny pool of names so that case twins and literal/pattern pairs meet in one tree
+fn twin_leaf() -> BoxedStrategy<E> {
+    let n = || prop::sample::select(vec!["a", "A", "foo", "Foo", "FOO", "foo*", "FOO*", "*.c", "*.C", "makefile", "Makefile", "x/y", "X/Y"]).prop_map(|s| s.to_string());
+    prop_oneof![
+        3 => n().prop_map(|p| E::T(Tst::Name(p))),
+        3 => n().prop_map(|p| E::T(Tst::IName(p))),
+        2 => n().prop_map(|p| E::T(Tst::Path(p))),
+        2 => n().prop_map(|p| E::T(Tst::IPath(p))),
+        1 => gen::supported_action().prop_map(E::A),
+        1 => gen::supported_test().prop_map(E::T),
+    ]
+    .boxed()
+}
+
 pub fn strategy(max_depth: u32, max_size: u32) -> BoxedStrategy<Case> {
     (
-        gen::expr_over(gen::supported_leaf(), max_depth, max_size, true),
+        prop_oneof![5 => gen::expr_over(gen::supported_leaf(), max_depth, max_size, true), 1 => gen::expr_over(twin_leaf(), max_depth, max_size, true)],
         proptest::collection::vec(files::random_file(PLACEHOLDER_NOW), 3..9),
         prop_oneof![3 => Just(None), 1 => gen::count_u32().prop_map(Some)],
         prop::bool::weighted(0.2),
@@ -121,7 +135,7 @@ pub fn strategy(max_depth: u32, max_size: u32) -> BoxedStrategy<Case> {
 }
 
 pub fn run(ctx: &Ctx) -> Report {
-    let cases = ctx.tier.pick(6_000u32, 120_000u32);
+    let cases = ctx.tier.pick(48_000u32, 600_000u32);
     let (depth, size) = ctx.tier.pick((4, 14), (6, 30));
     let shards = 32;
     let executions = std::sync::atomic::AtomicU64::new(0);
@@ -162,6 +176,11 @@ pub fn run(ctx: &Ctx) -> Report {
         }
     }
     total.merge(st);
+    for smp in total.samples.iter_mut() {
+        if let Some(n) = smp.get("files").and_then(|f| f.as_array()).map(|a| a.len()) {
+            smp["files"] = json!(format!("{n} random records (+ the directed set)"));
+        }
+    }
     total.extra.insert("policy_executions_compared".into(), json!(executions.load(std::sync::atomic::Ordering::Relaxed)));
     total.extra.insert("programs".into(), json!(total.evaluations));
     Report {
